@@ -64,27 +64,41 @@ theorem ini_identifier_keys (k : Bytes) (h : Ident k) : KeyOK k := AslProofs.Ini
     keys, new keys in existing sections, new sections, the section-less group `-` — interleaved with any
     number of explicit `write()` calls, and let the destructor write.  No `write` reads outside `_lines`,
     and a fresh `IniFile` on the resulting file returns, for **every** section and key, the value of the last
-    `set` of that entry, or else the value the document had (absent entries read as empty). -/
+    `set` of that entry, or else the value the document had (absent entries read as empty).  Moreover the
+    resulting file is again the text of a document of the grammar with exactly that meaning, so the statement
+    composes over any number of sessions (reopen, set, close, …). -/
 theorem ini_persist (doc : List Item) (hd : ∀ it ∈ doc, it.WF) (eol : Bytes) (he : LineEnd eol) (finalNewline : Bool)
     (ops : List Op) (hops : ∀ o ∈ setsOf ops, o.WF) :
     ∃ obj file, run (Ini.read (renderDoc doc eol finalNewline) true, renderDoc doc eol finalNewline) (ops ++ [Op.write])
         = some (obj, file) ∧
-      ∀ shouldwrite s k, 47 ∉ s →
-        Ini.get (Ini.read file shouldwrite) (path s k) = (afterSets doc (setsOf ops) s k).getD [] := by
+      (∀ shouldwrite s k, 47 ∉ s →
+        Ini.get (Ini.read file shouldwrite) (path s k) = (afterSets doc (setsOf ops) s k).getD []) ∧
+      ∃ (doc' : List Item) (eol' : Bytes) (fnl' : Bool), (∀ it ∈ doc', it.WF) ∧ LineEnd eol' ∧
+        file = renderDoc doc' eol' fnl' ∧ ∀ s k, (relGet doc' s k).getD [] = (afterSets doc (setsOf ops) s k).getD [] := by
   have hwf := AslProofs.Ini.read_wf doc hd eol he finalNewline
   have hne := AslProofs.Ini.read_hasNE (renderDoc doc eol finalNewline) true
   have hJ : (Ini.read (renderDoc doc eol finalNewline) true).modified = false →
       AslProofs.Ini.Agree (Ini.read (renderDoc doc eol finalNewline) true, renderDoc doc eol finalNewline) := by
     intro _ sw s k
     simp only [AslProofs.Ini.lookupD, AslProofs.Ini.read_render_lookup doc hd eol he finalNewline]
-  obtain ⟨st1, hr1, hw1, hn1, hJ1, hl1⟩ := AslProofs.Ini.run_inv ops
-    (Ini.read (renderDoc doc eol finalNewline) true, renderDoc doc eol finalNewline) hwf hne hops hJ
-  obtain ⟨st2, hr2, hag, hl2⟩ := AslProofs.Ini.run_final_write st1 hw1 hn1 hJ1
-  refine ⟨st2.1, st2.2, by rw [AslProofs.Ini.run_append, hr1]; exact hr2, ?_⟩
-  intro sw s k hs
-  unfold path
-  rw [AslProofs.Ini.get_slash _ s k hs, hag sw s k, hl2 s k, hl1 s k, AslProofs.Ini.afterSets_getD]
-  simp only [AslProofs.Ini.lookupD, AslProofs.Ini.read_render_lookup doc hd eol he finalNewline true s k]
+  have hdoc0 : AslProofs.Ini.IsDoc (renderDoc doc eol finalNewline) := ⟨doc, eol, finalNewline, hd, he, rfl⟩
+  obtain ⟨st1, hr1, hw1, hn1, hJ1, hl1, hd1⟩ := AslProofs.Ini.run_inv ops
+    (Ini.read (renderDoc doc eol finalNewline) true, renderDoc doc eol finalNewline) hwf hne hops hJ hdoc0
+  obtain ⟨st2, hr2, hag, hl2, hd2⟩ := AslProofs.Ini.run_final_write st1 hw1 hn1 hJ1 hd1
+  have hval : ∀ sw s k, AslProofs.Ini.lookupD (Ini.read st2.2 sw).sections s k = (afterSets doc (setsOf ops) s k).getD [] := by
+    intro sw s k
+    rw [hag sw s k, hl2 s k, hl1 s k, AslProofs.Ini.afterSets_getD]
+    simp only [AslProofs.Ini.lookupD, AslProofs.Ini.read_render_lookup doc hd eol he finalNewline true s k]
+  refine ⟨st2.1, st2.2, by rw [AslProofs.Ini.run_append, hr1]; exact hr2, ?_, ?_⟩
+  · intro sw s k hs
+    unfold path
+    rw [AslProofs.Ini.get_slash _ s k hs, hval sw s k]
+  · obtain ⟨doc', eol', fnl', hdw, hel, hfile⟩ := hd2
+    refine ⟨doc', eol', fnl', hdw, hel, hfile, ?_⟩
+    intro s k
+    have := hval true s k
+    rw [hfile, AslProofs.Ini.lookupD, AslProofs.Ini.read_render_lookup doc' hdw eol' hel fnl' true s k] at this
+    exact this
 
 /-- a well-formed `set`: `set("net/retries", "5")` -/
 example : (⟨[110, 101, 116], [114], [53]⟩ : SetOp).WF := by
